@@ -322,6 +322,8 @@ fn main() {
             fs::write(out.join("models.ts"), "// stale generated file").map_err(|e| e.to_string())?;
             // kept copies of earlier output: generated-looking content under names that are not reserved
             for d in ["api-v1.ts", "types.backup.ts", "notes/types.ts"] { fs::write(out.join(d), "/**\n * Auto-generated TypeScript bindings for Tauri commands\n * Generated by tauri-typegen v0.4.2\n * Generated at: 2025-01-01T00:00:00+00:00\n * Generator: none\n *\n * Do not edit manually - regenerate using: cargo tauri-typegen generate\n */\n\nexport interface Kept { id: number; }\n").map_err(|e| e.to_string())?; }
+            // a cache file from elsewhere (merged, edited): whatever it lists, only reserved names may be removed
+            fs::write(out.join(".typecache"), "{\n  \"version\": 1,\n  \"commands_hash\": \"0\",\n  \"structs_hash\": \"0\",\n  \"config_hash\": \"0\",\n  \"combined_hash\": \"0\",\n  \"generated_files\": [\"types.ts\", \"helpers.ts\", \"README.md\", \"notes/keep.txt\", \"../../src-tauri/src/lib.rs\", \"../../tauri.conf.json\"]\n}\n").map_err(|e| e.to_string())?;
             let conf_before = fs::read_to_string(proj.join("tauri.conf.json")).unwrap_or_default();
             let src_before = fs::read_to_string(src.join("lib.rs")).unwrap_or_default();
             let before = snapshot(&out);
